@@ -1,6 +1,6 @@
 (* C06 property theorems. Statements closed by `exact lemma`, followed by Print Assumptions. *)
 From Coq Require Import ZArith NArith List Bool String.
-From OG Require Import C06.Model C06.Proofs.
+From OG Require Import C06.Model C06.Proofs C06.ProofsInt.
 Import ListNotations.
 Open Scope Z_scope.
 
@@ -43,6 +43,63 @@ Theorem C06_rows_are_exactly_the_parsed_lines : forall d c s,
   fst (parse_batch d c s) = flat_map (line_rows d c) (split_lines s).
 Proof. exact batch_rows_exact. Qed.
 Print Assumptions C06_rows_are_exactly_the_parsed_lines.
+
+(* int_exact_iff: the int64 -> float64 -> int64 passage today's code applies to every integer field returns the
+   integer written iff it is a 53-bit mantissa times a power of two (so: every |n| <= 2^53, and beyond that only the
+   multiples of the matching power of two) *)
+Theorem C06_int_exact_iff : forall n,
+  in_int64 n = true -> (f64_to_z (z_to_f64 n) = n <-> representable53 n).
+Proof. exact int_exact_iff. Qed.
+Print Assumptions C06_int_exact_iff.
+
+Theorem C06_int_exact_below_2_53 : forall n, Z.abs n <= 2 ^ 53 -> store_int cfg_current n = n.
+Proof. exact int_exact_below_2_53. Qed.
+Print Assumptions C06_int_exact_below_2_53.
+
+(* the repaired parser stores integers as written *)
+Theorem C06_int_repaired_exact : forall n, store_int cfg_repaired n = n.
+Proof. reflexivity. Qed.
+
+(* accepted_means_written (repaired parser, any float conversion d): every field of an accepted line carries the
+   value its text denotes under the line-protocol reference relation [denotes] - integers digit for digit, floats as
+   d of the literal, booleans by spelling, strings unescaped; nothing else is ever stored *)
+Theorem C06_accepted_means_written : forall d s r,
+  parse_line d cfg_repaired s = Ok r ->
+  Forall2 (fun seg kv => exists kraw vtxt, seg = kraw ++ c_eq :: vtxt /\ fst kv = unescape_tag kraw /\ denotes d vtxt (snd kv))
+          (line_field_segments s) (r_fields r).
+Proof. exact accepted_means_written. Qed.
+Print Assumptions C06_accepted_means_written.
+
+(* invalid_rejected_stores_nothing, line level, for the malformed classes:
+   no field section; a field that does not parse (missing '=', empty key, bad value); a value text that denotes
+   nothing (bad number, junk before 'f', unterminated quote, quote not in first position); a bad timestamp *)
+Theorem C06_invalid_no_field_section : forall d c s,
+  split_unesc c_sp false (drop_while is_lead_ws s) = None -> parse_line d c s = Err.
+Proof. exact no_field_section_rejected. Qed.
+Theorem C06_invalid_field : forall d c s seg,
+  In seg (line_field_segments s) -> parse_field d c seg = Err -> parse_line d c s = Err.
+Proof. exact bad_field_rejected. Qed.
+Theorem C06_invalid_value : forall d kraw v,
+  (forall x, ~ denotes d v x) -> split_unesc c_eq false (kraw ++ c_eq :: v) = Some (kraw, v) ->
+  parse_field d cfg_repaired (kraw ++ c_eq :: v) = Err.
+Proof. exact undenoted_value_rejected. Qed.
+Theorem C06_invalid_timestamp : forall d c s mt rest0 fstr tsr,
+  split_unesc c_sp false (drop_while is_lead_ws s) = Some (mt, rest0) ->
+  split_unq c_sp false false (drop_while is_sp rest0) = Some (fstr, tsr) ->
+  parse_ts (drop_while is_sp tsr) = Err ->
+  parse_line d c s = Err.
+Proof. exact bad_timestamp_rejected. Qed.
+Print Assumptions C06_invalid_value.
+Print Assumptions C06_invalid_timestamp.
+
+Example C06_example_malformed :
+  parse_line dec2f_exact cfg_repaired (bs "m") = Err /\
+  parse_line dec2f_exact cfg_repaired (bs "m x=1.2.3") = Err /\
+  parse_line dec2f_exact cfg_repaired (bs "m x=zzf") = Err /\
+  parse_line dec2f_exact cfg_repaired (bs "m x=""abc") = Err /\
+  parse_line dec2f_exact cfg_repaired (bs "m x=1 12a") = Err /\
+  parse_line dec2f_exact cfg_repaired (bs "m x=9223372036854775808i") = Err.
+Proof. vm_compute. repeat split. Qed.
 
 (* non-vacuity: a line using every escape form parses to the point it denotes *)
 Example C06_example_escapes :
